@@ -103,6 +103,7 @@ class VerilogTransformer(Transformer):
     def output(self, args): return self.declaration("output", args)
     def inout(self, args): return self.declaration("input", args)  # just treat as input
     def wire(self, args): return self.declaration("wire", args)
+    def tri(self, args): return self.declaration("wire", args)
 
     def module(self, args):
         c = Circuit(args[0])
